@@ -521,10 +521,13 @@ def exec_for_invariant(engine, ctx, st: ast.For, env: Env, it, inv):
     modified = [n for n in assigned_names(st.body) if n in env.vars]
 
     def inv_clauses(i):
-        d = {k: v for k, v in env.vars.items()}
-        d.update(i=i, seq=it, lo=lo, hi=hi, ctx=ctx, carried={k: env.vars[k] for k in modified if k in env.vars},
-                 old=getattr(ctx, "entry_old", None))
-        ns = NS(**d)
+        d_ = {k: v for k, v in env.vars.items()}
+        # `carried`: the loop-carried variables by name, so that an invariant can speak about "the accumulator" without
+        # depending on what the code calls it
+        d_.update(i=i, seq=it, lo=lo, hi=hi, ctx=ctx, carried={k: env.vars[k] for k in modified if k in env.vars},
+                  enclosing=list(getattr(ctx, "loop_elems", [])),  # current elements of the enclosing invariant loops
+                  old=getattr(ctx, "entry_old", None))  # pre-state of the function (see symexec.make_old_view)
+        ns = NS(**d_)
         trig = getattr(inv, "triggers", None)
         if trig is not None:
             # trigger atoms (uninterpreted marker predicates without axioms of their own): assuming them only tells the
@@ -581,13 +584,17 @@ def exec_for_invariant(engine, ctx, st: ast.For, env: Env, it, inv):
         ctx.assume(i < hi)
         for lab, c in inv_clauses(i):
             ctx.assume(lift_bool(c))
-        engine.assign(ctx, st.target, elem(i), env)
+        cur = elem(i)
+        engine.assign(ctx, st.target, cur, env)
+        ctx.__dict__.setdefault("loop_elems", []).append(cur)  # visible to the invariants of nested loops as s.enclosing
         try:
             engine.exec_block(ctx, st.body, env)
         except ContinueSig:
             pass
         except BreakSig:
             raise EngineLimit("break in a loop with invariant")
+        finally:
+            ctx.loop_elems.pop()
         for lab, c in inv_clauses(i + 1):
             ctx.oblige("%s/inv-step#%s" % (label, lab), lift_bool(c), kind="inv-step")
         raise PathEnd()
